@@ -560,7 +560,31 @@ func (c *flowCtx) call(call *ssa.Call, resIdx int) APSet {
 		out.add(c.paths(a), "")
 	}
 	out[AP{call, ""}] = true
+	// an opaque object later fed through its own methods (h := sha256.New(); h.Write(data); h.Sum(nil))
+	if refs := call.Referrers(); refs != nil && (types.IsInterface(call.Type()) || isPointer(call.Type())) {
+		for _, r := range *refs {
+			ci, ok := r.(ssa.CallInstruction)
+			if !ok || ci == ssa.CallInstruction(call) {
+				continue
+			}
+			rc := ci.Common()
+			isRecv := (rc.IsInvoke() && rc.Value == ssa.Value(call)) || (!rc.IsInvoke() && len(rc.Args) > 0 && rc.Args[0] == ssa.Value(call) && rc.Signature().Recv() != nil)
+			if !isRecv {
+				continue
+			}
+			for _, a := range rc.Args {
+				if a != ssa.Value(call) {
+					out.add(c.paths(a), "")
+				}
+			}
+		}
+	}
 	return out
+}
+
+func isPointer(t types.Type) bool {
+	_, ok := t.Underlying().(*types.Pointer)
+	return ok
 }
 
 // enter applies the callee's summary (result resIdx; -1 = all results) to the arguments.
